@@ -192,9 +192,12 @@ def kaykobad_pair_s(draw):
     pg = []
     for y in ys:
         row = {y: rowsign * draw(st.sampled_from([1, 1, 2]))}
+        wrong = draw(st.integers(0, 3)) == 0      # sometimes a coupling of the opposite sign (such a row must not be used)
         for o in ys:
             if o != y and draw(st.integers(0, 2)) > 0:
                 row[o] = rowsign * draw(st.sampled_from([0.25, 0.5, 0.75, 0.6, 0.9]))
+                if wrong and draw(st.booleans()):
+                    row[o] = -row[o] * draw(st.sampled_from([1, 3, 4]))
         if draw(st.integers(0, 4)) > 0:
             row[draw(st.sampled_from(us))] = -rowsign * draw(st.sampled_from([1, 1, 2, 0.5]))
         pg.append([row, float(dot(row, w) + draw(st.sampled_from([0, 0, 1])))])
